@@ -1199,7 +1199,9 @@ where
                         }
                     }
                     Err(Error(err)) => {
-                        let consumed = before - this_arg.len();
+                        // a nested adjacent parser can hand back a state with a scope wider
+                        // than this one, nothing was consumed from this scope then
+                        let consumed = before.saturating_sub(this_arg.len());
                         if consumed > best_consumed {
                             best_consumed = consumed;
                             std::mem::swap(&mut best_args, &mut this_arg);
